@@ -2,10 +2,12 @@
 
 E: TLC checks ExprSema.tla: for every generated triple (expression e, environment G, single-step
    loosening G' of G -- one type occurrence replaced by `any`, or one closed object opened -- or the
-   literal of fromJSON('...') replaced by an expression) the intended design satisfies
+   literal of fromJSON('...') replaced by an expression) the design (= the code as read) satisfies
    any-monotonicity (accepted under G => accepted under G', also at a template position), the type
    of an accepted expression only loosens (A.6 preorder), a diagnostic only appears where a masking
-   one went away, and the code as read deviates only through the named deviation FilterAnyProp.
+   one went away.  The deviation FilterAnyProp (fixed in the code) stays named but disabled: a guard run
+   requires TLC to find its counterexample, and real outputs that equal the model with it are labelled
+   as its regression.
 G: every triple of the state space is dumped with the predicted diagnostics (class, token index)
    and executed on the real ExprSemanticsChecker (environments installed through Update*); triples
    whose real outputs differ from the prediction or break the relation are judged by TLC
@@ -146,7 +148,7 @@ def api_part(ck, sd, tier, rng, finds):
     vplib.write_jsonl(os.path.join(sd, 'pairs.jsonl'), list(pairs.values()))
     vplib.run_harness(['sema-vectors', os.path.join(sd, 'pairs.jsonl'), os.path.join(sd, 'in.jsonl'),
                        os.path.join(sd, 'out.jsonl')], timeout=3000)
-    as_read = as_intended = nontrivial = mutated = 0
+    as_read = as_regress = nontrivial = mutated = 0
     judge = []          # (vector, real) to be judged by TLC
     sample_p = min(1.0, (6000 if tier == 'quick' else 30000) / max(n, 1))
     lintable = []
@@ -166,7 +168,7 @@ def api_part(ck, sd, tier, rng, finds):
         if same_read:
             as_read += 1
         elif same_int:
-            as_intended += 1
+            as_regress += 1      # equals the model with the disabled deviation FilterAnyProp
         holds = relation_holds(a, r1['k'], b, r2['k'])
         if not (same_read or same_int) or not holds or rng.random() < sample_p:
             judge.append((v, r1, r2))
@@ -179,7 +181,10 @@ def api_part(ck, sd, tier, rng, finds):
     ck.cov['vectors'] = n
     ck.cov['environment_pairs'] = len(pairs)
     ck.cov['vectors_equal_to_model_of_code_as_read'] = as_read
-    ck.cov['vectors_equal_to_intended_design_only'] = as_intended
+    ck.cov['vectors_equal_to_model_with_disabled_deviation_FilterAnyProp'] = as_regress
+    if as_regress:
+        ck.note('regression: %d vectors behave like the model with the deviation FilterAnyProp, which is fixed in the '
+                'code (checkArrayDeref: `.*` on a closed object whose properties are typed any)' % as_regress)
     if mutated:
         ck.cov['executions_that_mutated_the_installed_environment'] = mutated
         ck.note('C09 topic, observed here: %d executions changed the type value installed in the environment '
@@ -199,7 +204,9 @@ def api_part(ck, sd, tier, rng, finds):
         a, b = eset(r1['errs']), eset(r2['errs'])
         t2 = v['t2'] or v['t1']
         cls = new_classes(a, b) or ['template-type']
+        regress = ('q1' in v and a == eset(v['q1']) and b == eset(v['q2']))
         finds.add('api:' + '+'.join(cls), len(v['t1']),
+                  ('[regression of the fixed deviation FilterAnyProp] ' if regress else '') +
                   'expression `%s` is accepted under the environment G (type %s) but %s under the loosened G\' %s'
                   % (v['t1'], r1['k'], ('`%s` is rejected with %s' % (t2, sorted(b))) if b else
                      'evaluates to type %s (rejected at a template position)' % r2['k'], loosening_text(p, v)),
@@ -581,6 +588,8 @@ def use_sites(d, expr, ind, step_ctx=True):
     d.add(ind + '- run: echo')
     d.site(ind + '  name: ', expr)
     d.add(ind + '- run: echo')
+    d.site(ind + '  name: pre ', expr, ' post')
+    d.add(ind + '- run: echo')
     d.add(ind + '  env:')
     d.site(ind + '    X: ', expr)
     if plain_ok(expr):
@@ -725,8 +734,16 @@ def hand_docs():
             return d
         both('fromjson-literal', build)
 
+    # A definition "given by an expression" comes in four shapes: the whole scalar is one placeholder, text before
+    # or after a placeholder, several placeholders.  (Matrix rows, include sections/elements and the matrix itself
+    # only exist in the whole-scalar shape: the parser rejects the others.)
+    def shapes(head, tail):
+        """the text head+tail written as: `${{ 'ht' }}`, h${{ 't' }}, ${{ 'h' }}t, ${{ 'h' }}${{ 't' }}"""
+        return ["${{ '%s%s' }}" % (head, tail), "%s${{ '%s' }}" % (head, tail), "${{ '%s' }}%s" % (head, tail),
+                "${{ '%s' }}${{ '%s' }}" % (head, tail)]
+
     # step id literal -> expression (the steps object is opened)
-    def steps(v, e):
+    def steps(v, e, idtext):
         d = Doc()
         d.add('on: push')
         d.add('jobs:')
@@ -734,11 +751,24 @@ def hand_docs():
         d.add('    runs-on: ubuntu-latest')
         d.add('    steps:')
         d.add('      - run: echo')
-        d.add("        id: ${{ 'dyn' }}" if v else '        id: s1')
+        d.add('        id: ' + (idtext if v else 's1'))
         use_sites(d, e, '      ')
         return d
-    for root in ('steps.s1', 'steps.s1.outputs', 'steps.s1.outputs.x', 'steps', 'steps.s1.conclusion'):
-        both('step-id', lambda v, e, r=root: steps(v, e.replace('R', r)))
+    for k, idtext in enumerate(shapes('s', '1')):
+        for root in ('steps.s1', 'steps.s1.outputs', 'steps.s1.outputs.x', 'steps', 'steps.s1.conclusion'):
+            both('step-id-shape%d' % k, lambda v, e, r=root, t=idtext: steps(v, e.replace('R', r), t))
+
+    # (`uses:` given by an expression turns the closed outputs object of a known action / local callee into
+    # {string => string}; that is not a loosening in the sense of A.6 -- a dynamic index of a closed object is any,
+    # of a string map it is string -- so it is deliberately not part of this check.)
+
+    # matrix value literal -> expression: the whole-scalar shape has the type of the expression (any here), the mixed
+    # shapes are strings like the literal they replace
+    for k, text in enumerate(['"' + ANYX % 'A' + '"', '"x${{ vars.Y }}"', '"${{ vars.X }}y"', '"${{ vars.X }}${{ vars.Y }}"']):
+        for lit1, tmpl, tag in [('x', '[%s]', 'str'), ('x', '[{x: %s}]', 'objstr'), ('x', '[[%s]]', 'arrstr')]:
+            for root in ('matrix.a', 'matrix'):
+                both('matrix-value-%s-shape%d' % (tag, k), lambda v, e, a1=tmpl % lit1, a2=tmpl % text, r=root:
+                     matrix_doc(['a: ' + (a2 if v else a1), 'include: [{zz: 1}]'], e.replace('R', r)))
 
     # callee input typed vs untyped, caller unchanged
     for row in ('a: [{x: 1}]', 'a: [[1]]', 'a: [1]', 'a: [x]', 'a: [null]', 'a: [true]', 'a: ' + ANYX % 'A'):
@@ -848,11 +878,11 @@ def run(ck, tier):
         ck.cov['binding_selftest'] = 'rejected' if mism == {2} and 2 in drift else 'NOT rejected: %r %r' % (mism, drift)
         if mism != {2}:
             raise Inconclusive('binding self-test failed: corrupted record not rejected')
-        # self-test of the E layer: on the model of the code as read (deviation FilterAnyProp) TLC must find the
+        # guard of the E layer: on the model WITH the disabled deviation FilterAnyProp TLC must find the
         # counterexample to any-monotonicity
         t = vplib.run_tlc('ExprSema', 'ExprSema_asread.cfg', timeout=1200, name='asread')
-        ck.add_tlc('ExprSema self-test: any-monotonicity of the model of the code as read (must be violated)', t)
-        ck.cov['model_of_code_as_read'] = 'violates any-monotonicity (as expected)' if t.violated == 'AnyMonoAsRead' \
+        ck.add_tlc('ExprSema guard: any-monotonicity of the model with the disabled deviation FilterAnyProp (must be violated)', t)
+        ck.cov['model_with_disabled_deviation'] = 'violates any-monotonicity (as expected)' if t.violated == 'AnyMonoAsRead' \
             else 'NOT violated: %r' % t.violated
         if t.violated != 'AnyMonoAsRead':
             raise Inconclusive('E self-test failed: TLC finds no counterexample to any-monotonicity on the model with the '
